@@ -451,4 +451,95 @@ example : extractRcodeWith 0xFF 0 1 { id := 0, opcode := .StandardQuery, rcode :
 theorem escape_source :
     Gen.Env.escapePairs.all (· == [(".", "\\."), ("\\", "\\\\")]) ∧ Gen.Env.unescapeOn.all (· == "\\") := by decide
 
+/-! ### 15. the model's functions at what the source says: `without`, escaping; `MessageWriter`
+
+Sections 12 and 14 above compare what was read from the source with literals; the theorems below
+say that the model's own functions are the generic functions instantiated with the values read. -/
+
+/-- `Name::without` with the shape read from the source -/
+def withoutWith (shape : String) (a b : Name) : Option Name :=
+  if shape = "take-length-difference" then
+    (if a.isSubdomainOf b then some (a.take (a.length - b.length)) else none)
+  else none
+
+/-- the model's `Name.without` is the generic function at the shape read from `name.rs` -/
+theorem without_shape (a b : Name) :
+    a.without b = withoutWith (Gen.Env.withoutShape.getD "take-length-difference") a b := by
+  have h : Gen.Env.withoutShape.getD "take-length-difference" = "take-length-difference" := by decide
+  rw [h]; simp [withoutWith, Name.without]
+
+/-- `escaped_instance_name` over a table (character, its escaped form) -/
+def escapeWith (pairs : List (Char × List Char)) : List Char → List Char
+  | [] => []
+  | c :: cs => (match pairs.lookup c with | some e => e | none => [c]) ++ escapeWith pairs cs
+
+/-- `unescaped_instance_name` with the escape character -/
+def unescapeWith (esc : Char) : List Char → List Char
+  | [] => []
+  | [c] => if c = esc then [] else [c]
+  | c :: d :: cs => if c = esc then d :: unescapeWith esc cs else c :: unescapeWith esc (d :: cs)
+
+/-- what the model is written with (used when the item is untied) -/
+def modelEscapePairs : List (String × String) := [(".", "\\."), ("\\", "\\\\")]
+
+def pairsOf (ps : List (String × String)) : List (Char × List Char) :=
+  ps.filterMap (fun p => match p.1.toList with | [c] => some (c, p.2.toList) | _ => none)
+
+def charOf (s : String) : Char := match s.toList with | [c] => c | _ => 'x'
+
+/-- the escape table of the source, as characters -/
+theorem pairs_read : pairsOf (Gen.Env.escapePairs.getD modelEscapePairs) = [('.', ['\\', '.']), ('\\', ['\\', '\\'])] := by decide
+/-- the escape character `unescaped_instance_name` looks for -/
+theorem esc_read : charOf (Gen.Env.unescapeOn.getD "\\") = '\\' := by decide
+
+/-- **the model's `escapeName` is the generic escaper at the table read from `instance_information.rs`** (so a third
+escaped character, or another escaped form, in the source fails this theorem or unties the item) -/
+theorem escape_tied (cs : List Char) :
+    Mdns.escapeName cs = escapeWith (pairsOf (Gen.Env.escapePairs.getD modelEscapePairs)) cs := by
+  rw [pairs_read]
+  induction cs with
+  | nil => rfl
+  | cons c cs ih =>
+    by_cases h1 : c = '.'
+    · subst h1; simp [escapeWith, Mdns.escapeName, List.lookup, ih]
+    · by_cases h2 : c = '\\'
+      · subst h2; simp [escapeWith, Mdns.escapeName, List.lookup, ih]
+      · have e : Mdns.escapeName (c :: cs) = c :: Mdns.escapeName cs := by
+          rw [Mdns.escapeName]
+          · intro h; exact h1 h
+          · intro h; exact h2 h
+        have l : List.lookup c [('.', ['\\', '.']), ('\\', ['\\', '\\'])] = none := by
+          have b1 : (c == '.') = false := by simpa using h1
+          have b2 : (c == '\\') = false := by simpa using h2
+          simp [List.lookup, b1, b2]
+        rw [e, ih]
+        simp [escapeWith, l]
+
+/-- the model's `unescapeName` is the generic unescaper at the escape character read from the source -/
+theorem unescape_tied (cs : List Char) :
+    Mdns.unescapeName cs = unescapeWith (charOf (Gen.Env.unescapeOn.getD "\\")) cs := by
+  rw [esc_read]
+  fun_induction Mdns.unescapeName cs with
+  | case1 => rfl
+  | case2 => rfl
+  | case3 c cs ih => simp [unescapeWith, ih]
+  | case4 c cs h1 h2 ih =>
+    rw [ih]
+    cases cs with
+    | nil =>
+      have hc : c ≠ '\\' := fun h => h1 h rfl
+      simp [unescapeWith, hc]
+    | cons d ds =>
+      have hc : c ≠ '\\' := fun h => h2 d ds h rfl
+      simp [unescapeWith, hc]
+
+/-- `MessageWriter`, the wrapper `write_compressed_to` writes through: `write` and `flush` are
+forwarded to the caller's writer (so the final `flush` of `packet_write_order` reaches it) and
+positions are relative to where the message starts (`seek(Start(o))` goes to `start + o`, answers
+have `start` subtracted) - what `Model/Writer.lean` assumes when it hands `pos - start` to the name
+compressor (`writers_agree_compressed`). This theorem reads the source only; the model has no
+separate `MessageWriter` to instantiate. -/
+theorem message_writer_source :
+    Gen.Env.messageWriter.all (· == ["forward", "forward", "start-plus-offset/minus-start"]) := by decide
+
 end Dns.TieEnv
